@@ -37,7 +37,7 @@ def shards(tier, seed):
 def floors(tier):
     return {"relabel:calls": 1000, "relabel_map:calls": 500, "iso_finder:calls": 300, "iso_finder:sort_emit": 50,
             "iso_finder:label_map": 50, "iso_finder:n>=8": 20, "orbit:lc_orbit_finder": 100, "orbit:rgs": 10, "orbit:linear": 10,
-            "orbit:depth_first": 20, "orbit:graphs_checked": 1000, "lcomp_probe:steps": 1000}
+            "orbit:depth_first": 20, "orbit:graphs_checked": 1000, "lcomp_probe:steps": 1000, "relabel_map:permuted_insertion_order": 1000}
 
 
 def isomorphic(A, B):
@@ -147,6 +147,25 @@ def check_relabel(A, perm, ctx):
         ctx.violation("relabel_wrong", case, {"got": B.tolist(), "expected": ref.tolist()}, key="relabel_wrong")
         return
     ctx.count("relabel_map:calls")
+    # graphs whose node labels were inserted in another order than 0..n-1: the positional adjacency matrices may coincide
+    # although the labelled graphs differ (or the other way round); the map must be an isomorphism of the labelled graphs
+    import random as _r
+    rr = _r.Random(int(A.sum()) * 7919 + sum(perm[:3]))
+    o1 = list(range(n)); rr.shuffle(o1)
+    o2 = list(range(n)); rr.shuffle(o2)
+    for g1, g2 in ((gq.nx_from_adj(A, o1), gq.nx_from_adj(A, o2)), (gq.nx_from_adj(A, o1), gq.nx_from_adj(A)), (gq.nx_from_adj(A), gq.nx_from_adj(B, o2))):
+        ctx.count("relabel_map:permuted_insertion_order")
+        try:
+            m = dict(get_relabel_map(g1, g2))
+        except Exception as e:
+            ctx.violation("get_relabel_map_raises", case, {"exception": f"{type(e).__name__}: {e}"[:300], "nodes1": list(g1.nodes), "nodes2": list(g2.nodes)}, key="relabel_map_exc")
+            continue
+        m.pop(-1, None)
+        ok = sorted(m.keys()) == sorted(g1.nodes) and sorted(m.values()) == sorted(g2.nodes) and \
+            all(g1.has_edge(u, v) == g2.has_edge(m[u], m[v]) for u in g1.nodes for v in g1.nodes if u != v)
+        if not ok:
+            ctx.violation("relabel_map_not_an_isomorphism", case, {"map": {int(k): int(v) for k, v in m.items()}, "nodes1": list(g1.nodes), "nodes2": list(g2.nodes),
+                                                                   "edges1": sorted(map(sorted, g1.edges)), "edges2": sorted(map(sorted, g2.edges))}, key="relabel_map_wrong")
     for a1, a2 in ((A, B), (gq.nx_from_adj(A), gq.nx_from_adj(B)), (A, A.copy())):
         try:
             m = dict(get_relabel_map(a1, a2))
